@@ -96,23 +96,26 @@ func TestC08Cipher(t *testing.T) {
 		}
 		cEnd := end{res.cm, a, "c2s"}
 		sEnd := end{res.sm, b, "s2c"}
+		// the plaintext schedule has period 50, which divides the 500
+		// messages of a key epoch: message i and message i+500 carry equal
+		// plaintexts under equal nonces of successive key generations
 		payload := func(i int) []byte {
-			switch i % 9 {
+			switch i % 10 {
 			case 0:
 				return []byte{}
 			case 1:
 				return append([]byte(nil), marker...) // equal plaintexts, repeated
 			case 2:
-				if i%90 == 2 {
+				if i%50 == 2 {
 					x := make([]byte, 65535)
 					copy(x, marker)
 					return x
 				}
-				return []byte{byte(i)}
+				return []byte{byte(i % 50)}
 			default:
 				x := make([]byte, 20+i%50)
 				copy(x, marker)
-				x[len(x)-1] = byte(i)
+				x[len(x)-1] = byte(i % 50)
 				return x
 			}
 		}
@@ -161,18 +164,25 @@ func TestC08Cipher(t *testing.T) {
 		w1, w2 := a.Out.Wire[hsWire[0]:], b.Out.Wire[hsWire[1]:]
 		plainHits := bytes.Count(w1, marker[:16]) + bytes.Count(w2, marker[:16])
 		authHits := bytes.Count(a.Out.Wire, p.auth[:16]) + bytes.Count(b.Out.Wire, p.auth[:16])
-		// repeated ciphertext: split the stream of equal-plaintext records
-		// into their body ciphertexts is not needed: count repeated 16-byte
-		// windows at 16-byte stride over the whole post-handshake wire
+		// repeated ciphertext: every record (18-byte header ciphertext, body
+		// ciphertext) of both directions must be unique
 		seen := map[string]bool{}
 		coll := 0
-		for _, w := range [][]byte{w1, w2} {
-			for i := 0; i+16 <= len(w) && i < 400000; i += 16 {
-				k := string(w[i : i+16])
-				if seen[k] {
-					coll++
+		for di, w := range [][]byte{w1, w2} {
+			d := []string{"c2s", "s2c"}[di]
+			pos := 0
+			for _, pl := range sentLog[d] {
+				for _, ln := range []int{18, len(pl) + 16} {
+					if pos+ln > len(w) {
+						break
+					}
+					k := d + string(w[pos:pos+ln])
+					if seen[k] {
+						coll++
+					}
+					seen[k] = true
+					pos += ln
 				}
-				seen[k] = true
 			}
 		}
 		enc.Encode(map[string]any{"op": "end", "collisions": coll, "plainHits": plainHits,
